@@ -761,7 +761,7 @@ def run(ctx):
         cases = [ctx.replay["case"]] if "case" in ctx.replay else [d["case"] for d in ctx.replay.get("disagreements", [])]
     else:
         cases = corpus()
-        ntree, nset = (700, 500) if ctx.quick() else (5000, 3000)
+        ntree, nset = (500, 350) if ctx.quick() else (5000, 3000)
         nwide, nwset = (70, 40) if ctx.quick() else (500, 250)
         cases += [gen_tree_case(ctx.rng, maxd) for _ in range(ntree)]
         wide = [gen_wide_tree_case(ctx.rng, maxd) for _ in range(nwide)]
